@@ -14,7 +14,7 @@ cp -r /repo/src /repo/Cargo.toml /repo/Cargo.lock "$S/repo/"
 ( cd "$S/repo" && git init -q . && { git apply --whitespace=nowarn "$PATCH" 2>/dev/null || patch -p1 -s -F 3 --no-backup-if-mismatch < "$PATCH"; } ) || { echo "PATCH-DOES-NOT-APPLY $PATCH"; exit 3; }
 RC=0
 for C in "$@"; do
-  OUTP=$(TAU_REPO="$S/repo" TAU_OUT="$S/out" "$V/check" "$C" 2>&1)
+  OUTP=$(TAU_REPO="$S/repo" TAU_OUT="$S/out" TAU_FACTS_DIR="$S/facts" "$V/check" "$C" 2>&1)
   R=$?
   echo "== $C exit=$R"
   echo "$OUTP" | grep -E "VIOLATED|LOST|VIOLATION|KNOWN-FINDING|BUILD-ERROR|Traceback" | sed "s#$S/repo/##g" | head -${TRY_LINES:-12}
